@@ -143,6 +143,8 @@ type HistResult struct {
 	C06       []MonitorFailure
 	C06Agree  int
 	C05       []MonitorFailure
+	C03       []MonitorFailure
+	C03Checked int
 	C05Checked int
 	Exports   []*types.AppState // only when keepExports
 }
@@ -237,6 +239,7 @@ type genOpts struct {
 	KeepExports bool
 	TimeWalk    bool
 	CheckDeliver bool // run every transaction in check mode on the in-flight state right before delivering it (C06)
+	FailFrame    bool // C03: a rejected transaction changes nothing but one account's balance (the fee payer's)
 	CandAuth     bool // C05: candidate settings change only by the owner (on/off also by the control address)
 }
 
@@ -255,6 +258,8 @@ func genHistory(seed uint64, spec *GenesisSpec, g *genOpts) (*History, *HistResu
 		prev = holdings(&e)
 		prevEm = new(big.Int).Set(n.App.VerifAppDB().Emission())
 	}
+	var frameSections []c11Section
+	frameFrozen := map[uint64]bool{}
 	for b := 0; b < g.Blocks; b++ {
 		w.beginBlock()
 		var txs [][]byte
@@ -364,6 +369,61 @@ func genHistory(seed uint64, spec *GenesisSpec, g *genOpts) (*History, *HistResu
 		res.Hashes = append(res.Hashes, br.Hash)
 		res.Results = append(res.Results, br.Txs)
 		res.Updates = append(res.Updates, fmtUpdates(br))
+		if os.Getenv("VERIF_DEBUG") == "2" {
+			e := n.Export()
+			line := fmt.Sprintf("DBG h=%d", n.Height)
+			for _, v := range e.Validators {
+				line += fmt.Sprintf(" %s=%s", v.PubKey.String()[:8], v.TotalBipStake)
+			}
+			for _, c := range e.Candidates {
+				line += fmt.Sprintf(" | c%d st=%d tot=%s", c.ID, c.Status, c.TotalBipStake)
+			}
+			kinds := ""
+			for i, gt := range gens {
+				code := -1
+				if i < len(br.Txs) {
+					code = int(br.Txs[i].Code)
+				}
+				kinds += fmt.Sprintf(" %s:%d", gt.Kind, code)
+			}
+			fmt.Println(line, "txs:", kinds, "absent", opts.Absent, "ev", opts.Evidence)
+		}
+		if br.Panic != "" && os.Getenv("VERIF_DEBUG") != "" {
+			e := n.Export()
+			fmt.Printf("DEBUG panic %s\nopts absent=%v evidence=%v\n", br.Panic, opts.Absent, opts.Evidence)
+			for _, v := range e.Validators {
+				fmt.Printf("  validator %s total=%s accum=%s\n", v.PubKey.String()[:12], v.TotalBipStake, v.AccumReward)
+			}
+			for _, c := range e.Candidates {
+				fmt.Printf("  candidate %d %s status=%d total=%s stakes=%d updates=%d\n", c.ID, c.PubKey.String()[:12], c.Status, c.TotalBipStake, len(c.Stakes), len(c.Updates))
+				for _, sk := range c.Stakes {
+					fmt.Printf("      stake %s coin %d value %s bip %s\n", sk.Owner.String()[:10], sk.Coin, sk.Value, sk.BipValue)
+				}
+			}
+			for _, v := range n.App.VerifStateDeliver().Validators.GetValidators() {
+				fmt.Printf("  LIVE validator %s total=%s todrop=%v\n", v.PubKey.String()[:12], v.GetTotalBipStake(), v.IsToDrop())
+				for _, sk := range n.App.VerifStateDeliver().Candidates.GetStakes(v.PubKey) {
+					fmt.Printf("      LIVE stake %s coin %d value %s bip %s\n", sk.Owner.String()[:10], sk.Coin, sk.Value, sk.BipValue)
+				}
+			}
+			sd := n.App.VerifStateDeliver()
+			for _, c := range sd.Candidates.GetCandidates() {
+				fmt.Printf("  LIVE candidate %d %s status=%d total=%s tm=%x\n", c.ID, c.PubKey.String()[:12], c.Status, c.GetTotalBipStake(), c.GetTmAddress())
+			}
+			for i, gt := range gens {
+				code := -1
+				if i < len(br.Txs) {
+					code = int(br.Txs[i].Code)
+				}
+				fmt.Printf("  TX %s code=%d sender=%s data=%+v\n", gt.Kind, code, gt.Sender.Addr.String()[:10], gt.Data)
+			}
+			for i, v := range n.Vals {
+				fmt.Printf("  harness val %d %s tm=%x\n", i, v.Pub.String()[:12], v.TmAdr)
+			}
+			for bi_, b := range h.Blocks {
+				fmt.Printf("  block %d: absent=%v evidence=%v txs=%d\n", bi_, b.Opts.Absent, b.Opts.Evidence, len(b.Txs))
+			}
+		}
 		if br.Panic != "" {
 			// identify the transaction that crashed the node
 			k := len(br.Txs)
@@ -377,6 +437,59 @@ func genHistory(seed uint64, spec *GenesisSpec, g *genOpts) (*History, *HistResu
 				res.Panics = append(res.Panics, br.Panic+stack)
 			}
 			break
+		}
+		if g.FailFrame && br.Panic == "" {
+			// (Export reloads candidates and stakes from the committed tree: it is only safe between blocks, so the
+			// frame of a rejected transaction is observed on blocks that carry that single transaction)
+			cur := n.Export()
+			curS := c11Sections(&cur)
+			hh := uint64(n.Height)
+			if frameSections != nil && len(br.Txs) == 1 && br.Txs[0].Code != 0 && hh%stakePeriod != 0 && hh%stakePeriod != stakePeriod/2 && !frameFrozen[hh] && len(opts.Evidence) == 0 && len(opts.Absent) == 0 {
+				kind, gasBase := "malformed", true
+				if len(gens) == 1 {
+					kind = gens[0].Kind
+					gasBase = gens[0].Gas == 0 && kind != "sellallcoin" && kind != "sellallpool"
+				}
+				res.C03Checked++
+				for k := range frameSections {
+					if k >= len(curS) || frameSections[k].Name != curS[k].Name {
+						break
+					}
+					name := frameSections[k].Name
+					if name == "validators" || name == "max_gas" || name == "total_slashed" {
+						continue // block-level bookkeeping (accrued rewards, gas limit, reward remainders)
+					}
+					a, b := frameSections[k].Entries, curS[k].Entries
+					if strings.Join(a, "\n") == strings.Join(b, "\n") {
+						continue
+					}
+					if name == "accounts" {
+						in := map[string]bool{}
+						for _, x := range a {
+							in[x] = true
+						}
+						changed := 0
+						for _, x := range b {
+							if !in[x] {
+								changed++
+							}
+						}
+						if changed <= 1 && len(a) == len(b) {
+							continue
+						}
+					}
+					if !gasBase {
+						continue // fee paid in a custom coin: its reserve / pool / order owners move too (the ledger model covers the modelled types)
+					}
+					d := c11DiffSections([]c11Section{frameSections[k]}, []c11Section{curS[k]})
+					res.C03 = append(res.C03, MonitorFailure{What: fmt.Sprintf("C03: the only transaction of block %d (%s) was rejected with code %d, yet the state changed outside the payer's balance: section %s: %+v raw=%x", hh, kind, br.Txs[0].Code, name, d, txs[0]), Key: "c03-node-frame:" + name})
+				}
+			}
+			frameSections = curS
+			frameFrozen = map[uint64]bool{}
+			for _, f := range cur.FrozenFunds {
+				frameFrozen[f.Height] = true
+			}
 		}
 		if n.EmptyValset {
 			// this block removed the last validator: Tendermint would have refused the update and stopped the
